@@ -27,15 +27,29 @@ def jdigest(obj):
 
 
 class Scratch:
-    """One private scratch tree per worker; all have names of equal length so that nothing printed
-    by the SUT changes width with the worker that happened to execute a run."""
+    """A private scratch tree whose *path* is a pure function of (namespace, slot).  The slot of a
+    run is its run index, so everything that can depend on the absolute path (notably the hash order
+    of sets of paths inside the SUT) is the same when the run is repeated or replayed, whichever
+    worker executes it.  All names have equal length so that nothing printed changes width.  An
+    advisory lock serialises accidental concurrent users of one slot."""
 
-    def __init__(self, slot):
-        self.base = os.path.join(SCRATCH_BASE, f"cbisim-{os.getuid():05d}", f"w{int(slot):04d}")
-        self.n = 0
+    def __init__(self, slot, ns="run"):
+        self.base = os.path.join(SCRATCH_BASE, f"cbisim-{os.getuid():05d}", ns[:3].ljust(3, "_"),
+                                 f"r{int(slot):06d}")
+        self._lock = None
+
+    def _acquire(self):
+        if self._lock is None:
+            import fcntl
+
+            os.makedirs(os.path.dirname(self.base), exist_ok=True)
+            fd = os.open(self.base + ".lock", os.O_CREAT | os.O_RDWR, 0o600)
+            fcntl.flock(fd, fcntl.LOCK_EX)
+            self._lock = fd
 
     def fresh(self, tag="t"):
         """An empty directory <base>/<tag> (previous contents removed)."""
+        self._acquire()
         p = os.path.join(self.base, tag)
         shutil.rmtree(p, ignore_errors=True)
         os.makedirs(p)
@@ -43,6 +57,13 @@ class Scratch:
 
     def cleanup(self):
         shutil.rmtree(self.base, ignore_errors=True)
+        if self._lock is not None:
+            try:
+                os.unlink(self.base + ".lock")
+            except OSError:
+                pass
+            os.close(self._lock)
+            self._lock = None
 
 
 def plat_specs(world, top, names=None, order=None):
